@@ -51,6 +51,8 @@ type Stream struct {
 	// OnSyncRead, if set, runs at the start of every synchronous Read: the moment the reader goes back to the transport
 	// for more bytes.
 	OnSyncRead func()
+	// OnAsyncRead, if set, runs when an asynchronous read is started on the transport.
+	OnAsyncRead func()
 }
 
 type op struct {
@@ -66,6 +68,17 @@ func New(chunks [][]byte) *Stream {
 
 // Feed appends inbound chunks.
 func (s *Stream) Feed(chunks ...[]byte) { s.in = append(s.in, chunks...) }
+
+// AppendToLast appends b to the last inbound chunk that has not been read completely, so that it arrives in the same
+// read as the end of what was fed before; false if nothing is waiting.
+func (s *Stream) AppendToLast(b []byte) bool {
+	if len(s.in) == 0 || len(s.in[len(s.in)-1]) == 0 {
+		return false
+	}
+	last := len(s.in) - 1
+	s.in[last] = append(append([]byte(nil), s.in[last]...), b...)
+	return true
+}
 
 func (s *Stream) InboundLeft() int {
 	n := 0
@@ -158,6 +171,9 @@ func (s *Stream) DeliverAll(max int) int {
 
 func (s *Stream) AsyncRead(b []byte, cb sonic.AsyncCallback) {
 	s.AsyncReads++
+	if s.OnAsyncRead != nil {
+		s.OnAsyncRead()
+	}
 	s.start(false, func() {
 		n, err := s.read(b)
 		cb(err, n)
